@@ -28,6 +28,7 @@ func TestVXReplay(t *testing.T) {
 	if stress < 1 {
 		stress = 1
 	}
+	vxrt.TestingT = t
 	var o vxrt.Outcome
 	inapplicable := checkOracles(file)
 	for it := 0; it < stress; it++ {
